@@ -90,6 +90,10 @@ class CHarness(ops.OpHarness):
                 self.witness["cegis_rounds"] = self.witness.get("cegis_rounds", 0) + 1
             else:
                 raise symex.Inconclusive("CEGIS for c-representation witnesses did not converge")
+        if kind == "ans" and res[1] is False and bad is None and self.witness.get("twin_negated_spec_detected", 0) < 2:
+            # vacuity twin: had the code answered True on this path, the True-direction VC must refute it
+            if eng.vc(Z.And(acc, sp.crep(self.eta), Z.Not(sp.query_accepted_c(self.eta, self.QA, self.QB)))) is not None:
+                self.witness["twin_negated_spec_detected"] = self.witness.get("twin_negated_spec_detected", 0) + 1
         if bad is not None:
             if len(self.viol) < 40:
                 self.viol.append(dict(res=list(res[:2]), vars={str(v): concretise.model_int(bad, v) for v in self.sb.vars}))
